@@ -393,6 +393,39 @@ class Driver:
             return H.as_chars_str(self.m.call('built_in_print::format_for_print_pred', [Ptr(Cell(v))]))
         return self._do(['fmtprint', strings], go, lambda s: s)
 
+
+    def head(self, rule):
+        """the head term of a rule register"""
+        r = self.new(None, 'term')
+        def go():
+            r.h = rule.h.fields[self.m.structs['Rule'].index('head')].v; return r.h
+        self._do(['head', r.reg, rule.reg], go, lambda h: H.dump(self.hp.read(h)))
+        return r
+
+    def body(self, rule):
+        r = self.new(None, 'goal')
+        def go():
+            r.h = rule.h.fields[self.m.structs['Rule'].index('body')].v; return r.h
+        self._do(['body', r.reg, rule.reg], go, lambda h: H.dump_goal(self.hp.read_goal(h)))
+        return r
+
+    def gterm(self, goal):
+        """the complex term inside a ComplexGoal register"""
+        r = self.new(None, 'term')
+        def go():
+            if goal.h.variant != 'ComplexGoal': raise Unsupported('gterm on ' + goal.h.variant)
+            r.h = goal.h.fields[0].v; return r.h
+        self._do(['gterm', r.reg, goal.reg], go, lambda h: H.dump(self.hp.read(h)))
+        return r
+
+    def arg(self, term, i):
+        """i-th element of an SComplex register (0 = functor)"""
+        r = self.new(None, 'term')
+        def go():
+            r.h = term.h.fields[0].v.items[i].v; return r.h
+        self._do(['arg', r.reg, term.reg, i], go, lambda h: H.dump(self.hp.read(h)))
+        return r
+
     # ------------------------------------------------------------ export
     def scenario_json(self):
         """the recorded ops as vreplay JSON (concrete mode only)"""
